@@ -131,6 +131,8 @@ func (x *rgExec) exec(i int) int {
 				cb.Put(x.hs(ins.Hs)...)
 			case "DELETE":
 				cb.Delete(x.hs(ins.Hs)...)
+			case "HEAD":
+				cb.Head(x.hs(ins.Hs)...)
 			}
 		}
 		i++
@@ -204,6 +206,13 @@ func rgReplay(raw json.RawMessage, idx int, tr *traceWriter) {
 			}
 		})
 	}
+	// the final action answers with a body once the handlers of the matched route have run (none of them writes): the
+	// request the chain works on is the request that came in - a HEAD request gets no body bytes, however its route was added
+	seenMethod := ""
+	x.f.Action(func(c flamego.Context) {
+		seenMethod = c.Request().Method
+		_, _ = c.ResponseWriter().Write([]byte("BODY"))
+	})
 	panicked := false
 	func() {
 		defer func() {
@@ -220,6 +229,7 @@ func rgReplay(raw json.RawMessage, idx int, tr *traceWriter) {
 	for _, p := range rgPaths(c.Prog) {
 		for _, m := range []string{"GET", "POST", "HEAD", "PUT", "DELETE"} {
 			x.ids, x.rt, x.nw = nil, "", 0
+			seenMethod = ""
 			w := httptest.NewRecorder()
 			req, _ := http.NewRequest(m, p, nil)
 			x.f.ServeHTTP(w, req)
@@ -227,7 +237,8 @@ func rgReplay(raw json.RawMessage, idx int, tr *traceWriter) {
 			if ids == nil {
 				ids = []int{}
 			}
-			tr.emit(map[string]interface{}{"ev": "req", "m": m, "path": p, "ids": ids, "route": x.rt, "status": w.Code, "nw": x.nw})
+			tr.emit(map[string]interface{}{"ev": "req", "m": m, "path": p, "ids": ids, "route": x.rt, "status": w.Code, "nw": x.nw,
+				"bodylen": w.Body.Len(), "seen_m": seenMethod})
 		}
 	}
 }
@@ -269,6 +280,14 @@ func rgGen(seed int64, n int, args []string, out *json.Encoder) {
 				return "/" // the group path with a trailing slash (an extra empty segment): "/g" + "/" is "/g/", not "/g"
 			}
 			return p
+		}
+		if rng.Intn(6) == 0 {
+			// a kept Combo value whose GET is added while AutoHead is in one state and whose HEAD is added after it was
+			// switched: what counts for a registration is the state at the time of THAT call (flat list: Get; AutoHead; Head)
+			first := rng.Intn(2) == 0
+			prog = append(prog, rgIns{Op: "autohead", V: first}, rgIns{Op: "cdecl", Cid: 1, Path: "/m", Hs: hs(rng.Intn(2))},
+				rgIns{Op: "ccall", Cid: 1, M: "GET", Hs: hs(1)}, rgIns{Op: "autohead", V: !first}, rgIns{Op: "ccall", Cid: 1, M: "HEAD", Hs: hs(1)})
+			cdecls = append(cdecls, 1)
 		}
 		for j := 0; j < k; j++ {
 			full := func(p string) string { return strings.Join(prefix, "") + p }
@@ -346,7 +365,7 @@ func rgGen(seed int64, n int, args []string, out *json.Encoder) {
 					prog = append(prog, rgIns{Op: "cdecl", Cid: cid, Path: []string{"/m", "/mm"}[rng.Intn(2)], Hs: hs(rng.Intn(3))})
 				case rng.Intn(2) == 0 && !rel() && len(cdecls) > 0:
 					// the routes of a Combo are registered where its method is called: with the groups open THERE
-					prog = append(prog, rgIns{Op: "ccall", Cid: cdecls[rng.Intn(len(cdecls))], M: []string{"GET", "POST", "PUT", "DELETE"}[rng.Intn(4)], Hs: hs(rng.Intn(3))})
+					prog = append(prog, rgIns{Op: "ccall", Cid: cdecls[rng.Intn(len(cdecls))], M: []string{"GET", "POST", "PUT", "DELETE", "HEAD", "HEAD"}[rng.Intn(6)], Hs: hs(rng.Intn(3))})
 				default:
 					prog = append(prog, rgIns{Op: "autohead", V: rng.Intn(2) == 0})
 				}
